@@ -159,13 +159,12 @@ class BaseAmplitudeModel(AbsPDF):
             data = data.eval()
         if combine is None:
             combine = [[i] for i in range(len(self.decay_group.chains))]
-        o_used_chains = self.decay_group.chains_idx
         weights = []
-        for i in combine:
-            self.decay_group.set_used_chains(i)
-            weight = self.pdf(data)
-            weights.append(weight)
-        self.decay_group.set_used_chains(o_used_chains)
+        with self.decay_group.keep_used_chains():
+            for i in combine:
+                self.decay_group.set_used_chains(i)
+                weight = self.pdf(data)
+                weights.append(weight)
         return weights
 
     def partial_weight_interference(self, data):
